@@ -7,10 +7,13 @@
 (c) Rrc/C15Router.v with cidDatagramRouter on generated datagrams.
 Implementation-side monitors are the property's own statements (byte budget, where datagrams go,
 which connection ID records carry, what justifies a change of RemoteAddr())."""
+import json
+import re
+
 import vlib
 from vlib import cN, clist, cbool
 
-IMPORTS = "From DtlsV Require Import Lib.Bytes Rrc.C15Manager Rrc.C15Conn Rrc.C15Router Rrc.C15Run."
+IMPORTS = "From DtlsV Require Import Lib.Bytes Rrc.C15Manager Rrc.C15Conn Rrc.C15Newest Rrc.C15Router Rrc.C15Run."
 
 SECOND = 1000000000
 
@@ -144,11 +147,28 @@ def e2e_term(c):
         else:
             chosen = [e["cookie"] for e in rrc if e["type"] == "chal"]
             rc = "None" if s["rcid"] is None else "(Some %s)" % hexlist(s["rcid"])
-            st = "SDeliver %d %d %s %d %s %d %d" % (acode(s["from"]), s["seq"], rc, s["bytes"], kind_term(s),
-                                                 chosen[0] if chosen else 0, s["now"])
+            st = "SDeliver %d %d %d %s %d %s %d %d %d" % (
+                acode(s["from"]), s["epoch"], s["seq"], rc, s["bytes"], kind_term(s),
+                chosen[0] if chosen else 0, s["now"], s["repoch"])
         steps.append("(%s, %s)" % (st, obs))
-    return "(%s, %s, %d, %s, %d, %s)" % (cbool(c["neg"]), hexlist(c["local_cid"]), c["wsize"],
-                                         clist(["%d" % x for x in c["pre"]]), acode(c["peer"]), clist(steps))
+    return "(%s, %s, %d, %s, %d, %d, %s)" % (
+        cbool(c["neg"]), hexlist(c["local_cid"]), c["wsize"],
+        clist(["(%d, %d)" % (x[0], x[1]) for x in c["pre"]]), c["repoch0"], acode(c["peer"]), clist(steps))
+
+
+def stale_class(m):
+    """which stale-record scenario a 'not the newest record' message is about"""
+    if not m or "not an authentic newest" not in m:
+        return None
+    g = re.search(r"\(epoch (-?\d+), seq (-?\d+)\) from \S+ newest received before: \(epoch (-?\d+), seq (-?\d+)\)", m)
+    if not g:
+        return "stale"
+    e, q, me, mq = (int(x) for x in g.groups())
+    if e < me:
+        return "record of a superseded epoch"
+    if q == 0:
+        return "late first record of the epoch"
+    return "stale sequence number"
 
 
 def monitor_e2e(c):
@@ -157,8 +177,10 @@ def monitor_e2e(c):
         return "harness: " + c["err"]
     ra = c["peer"]
     recv, sent = {}, {}
-    seen_seq = set()
-    max_ok_seq = max(c["pre"]) if c["pre"] else -1
+    # records are ordered by epoch, then sequence number (RFC 9146 section 6); everything the endpoint
+    # was handed during the handshake counts as received
+    seen_rec = set()
+    max_ok = max([(x[0], x[1]) for x in c["pre"]]) if c["pre"] else (-1, -1)
     chals = []   # (cookie, to, now, trigger_ok)
     for i, s in enumerate(c["steps"]):
         before = ra
@@ -166,15 +188,21 @@ def monitor_e2e(c):
             recv[s["from"]] = recv.get(s["from"], 0) + s["bytes"]
         # carries the endpoint's own ID (none when that ID is empty) and is not a replay
         own = (s["rcid"] == c["local_cid"]) if s["rcid"] is not None else c["local_cid"] == ""
-        genuine = s["op"] == "deliver" and own and s["seq"] not in seen_seq
-        newest = genuine and s["seq"] > max_ok_seq
+        rid = (s.get("epoch", 0), s["seq"])
+        genuine = s["op"] == "deliver" and own and rid not in seen_rec
+        newest = genuine and rid > max_ok
         for e in s["emits"]:
-            # connection ID on everything the endpoint sends
-            if c["peer_cid"]:
-                if e["hdr_ct"] != 25 or e["cid"] != c["peer_cid"]:
-                    return "step %d: emitted record does not carry the peer's connection ID" % i
-            elif e["hdr_ct"] == 25:
-                return "step %d: emitted a tls12_cid record although the peer asked for none" % i
+            # connection ID on every protected record the endpoint sends
+            for rr in e["recs"]:
+                if not rr["prot"]:
+                    if rr["hdr_ct"] == 25:
+                        return "step %d: emitted an unprotected record with a connection ID" % i
+                    continue
+                if c["peer_cid"]:
+                    if rr["hdr_ct"] != 25 or rr["cid"] != c["peer_cid"]:
+                        return "step %d: emitted record does not carry the peer's connection ID" % i
+                elif rr["hdr_ct"] == 25:
+                    return "step %d: emitted a tls12_cid record although the peer asked for none" % i
             if e["type"] in ("chal", "resp"):
                 if not c["neg"]:
                     return "step %d: RRC record emitted without negotiation" % i
@@ -182,7 +210,9 @@ def monitor_e2e(c):
                     return "step %d: RRC record to %s not caused by a record from there" % (i, e["to"])
                 if e["type"] == "chal":
                     if not (newest and s["rcid"] is not None):
-                        return "step %d: challenge started by a record that is not an authentic newest CID record" % i
+                        return ("step %d: challenge started by a record that is not an authentic newest CID record "
+                                "(record (epoch %d, seq %d) from %s newest received before: (epoch %d, seq %d))"
+                                % (i, rid[0], rid[1], s["from"], max_ok[0], max_ok[1]))
                     chals.append((e["cookie"], e["to"], s["now"]))
             elif e["to"] != before:
                 return "step %d: %s datagram sent to %s while RemoteAddr() is %s" % (i, e["type"], e["to"], before)
@@ -195,8 +225,8 @@ def monitor_e2e(c):
             if not (genuine and s.get("rkind") == "app" and s["read_ok"]):
                 return "step %d: Read returned a payload for a record that must not be accepted" % i
         if genuine:
-            seen_seq.add(s["seq"])
-            max_ok_seq = max(max_ok_seq, s["seq"])
+            seen_rec.add(rid)
+            max_ok = max(max_ok, rid)
         if s["raddr"] != before:
             if not c["neg"]:
                 return "step %d: RemoteAddr() changed without RRC negotiation" % i
@@ -343,19 +373,31 @@ def run(chk):
         else:
             chk.broken("correspondence harness TestVerifC15E2E no longer runs against /repo (%s)" % kind, o)
     how_e2e = ("establish (PSK suite `variant`) with ConnectionIDGenerator lengths len_eut/len_peer (-1 = none); the "
-               "peer's writes are captured; each `deliver` step hands pool record `rec` (sequence `seq`, kind "
+               "peer's writes are captured (in `-stale0` variants the first datagram of the peer that carries a "
+               "record of the application epoch is withheld during the handshake and kept; in `-oldepoch` variants "
+               "the peer updates its keys and one record of the old epoch is kept); each `deliver` step hands pool "
+               "record `rec` (epoch `epoch`, sequence `seq`, kind "
                "`rkind`, connection ID `rcid`, `tamper` = sender-side ID altered) to the endpoint under test "
                "from source address `from` at virtual time `now`; `emits` = what it sent (decoded with the "
-               "peer's keys), `raddr` = RemoteAddr() afterwards")
+               "peer's keys), `raddr` = RemoteAddr() afterwards, `repoch` = its remote epoch afterwards; `pre` = "
+               "protected records (epoch, seq) it was handed during the handshake")
+    reported = set()
     for c in e2e:
         m = monitor_e2e(c)
         if m:
             found_input = True
-            chk.finding("conn.go handleIncomingPacket / connection_id.go / internal/rrc",
-                        {"monitor": m.split(": ", 1)[-1].split(" ")[0:4], "neg": c["neg"]}, m,
+            sig = {"monitor": m.split(": ", 1)[-1].split(" ")[0:4], "neg": c["neg"]}
+            if stale_class(m):
+                sig["stale"] = stale_class(m)
+            key = json.dumps(sig, sort_keys=True)
+            if key in reported:
+                continue
+            reported.add(key)
+            chk.finding("conn.go handleIncomingPacket / connection_id.go / internal/rrc", sig, m,
                         {"how": how_e2e, "case": c,
                          "rerun": "VERIF_SEED=%d bin/check C15 --tier %s" % (chk.seed, chk.tier)})
-            break
+            if len(reported) >= 3:
+                break
     if ok_model and e2e:
         usable = [c for c in e2e if not c.get("err")]
         bad, err = vlib.coq_mismatches("c15e", IMPORTS, "e2e_case", "e2e_ok", [e2e_term(c) for c in usable],
@@ -372,7 +414,7 @@ def run(chk):
                             no_input=(m is None and not found_input))
         nt = [c for c in usable if e2e_nontrivial(c)]
         chk.count("e2e", len(e2e), [(c["eut"], c["len_eut"], c["len_peer"], c["variant"],
-                                     tuple((s["op"], s.get("from"), s.get("rkind"), s.get("tamper"), s["seq"], s["now"])
+                                     tuple((s["op"], s.get("from"), s.get("rkind"), s.get("tamper"), s.get("epoch"), s["seq"], s["now"])
                                            for s in c["steps"])) for c in nt],
                   samples=[{"eut": c["eut"], "lens": [c["len_eut"], c["len_peer"]], "script": c["script"],
                             "raddr": [s["raddr"] for s in c["steps"]][-8:]} for c in nt[-2:]])
